@@ -61,6 +61,12 @@ where
     fn is_job_discardable(&self, _key: &TKey) -> bool {
         true
     }
+
+    /// cfg-only: tags of the queued jobs in pop order
+    #[cfg(ractor_verif)]
+    fn verif_ids(&self) -> Vec<i64> {
+        Vec::new()
+    }
 }
 
 /// Priority trait which denotes the usize value of a [Priority]
@@ -221,6 +227,11 @@ where
         });
         before - self.q.len()
     }
+
+    #[cfg(ractor_verif)]
+    fn verif_ids(&self) -> Vec<i64> {
+        self.q.iter().map(|j| crate::verif::tag(&j.msg)).collect()
+    }
 }
 
 // =============== Priority Queue ================= //
@@ -355,6 +366,14 @@ where
 
     fn is_job_discardable(&self, key: &TKey) -> bool {
         self.priority_manager.is_discardable(key)
+    }
+
+    #[cfg(ractor_verif)]
+    fn verif_ids(&self) -> Vec<i64> {
+        self.queues
+            .iter()
+            .flat_map(|q| q.iter().map(|j| crate::verif::tag(&j.msg)))
+            .collect()
     }
 }
 
